@@ -82,7 +82,7 @@ def rec_c18(rng, workdir: Path, meta=None) -> dict:
     workdir.mkdir(parents=True)
     out = workdir / "out.tsv"
     try:
-        with quiet():
+        with quiet(), drive.time_limit(240):
             ev = make_evaluator(cfg, groups=groups, log_times=False)
             keys = list(ev.resulting_metric_keys)
             gnames = list(ev.segmentation_class_groups_names)
